@@ -13,7 +13,7 @@ FILES = ['src/containers/specialized/int_vec.rs', 'src/containers/specialized/in
 
 def run(ctx):
     fx = ctx.facts("default")
-    fixtures.run(ctx, ['taint', 'remainder', 'narrow', 'widthcheck'])
+    fixtures.run(ctx, ['taint', 'remainder', 'narrow', 'widthcheck', 'pairaccess'])
     # every stored value is looked at: chunks_exact tails are handled
     remainder.run(ctx, fx, FILES)
     ctx.floor('R-REMAINDER.sites', 1)
@@ -24,6 +24,8 @@ def run(ctx):
     narrow.packed_value_checked(ctx, fx, "blob_store::sorted_uint_vec::SortedUintVecBuilder::compress_values",
                                 r"::store_(sample|delta)_static$")
     ctx.floor('R-WIDTHCHECK.sites', 2)
+    # get2(i): the neighbour is located from i + 1, not from element i's block
+    narrow.pair_accessor(ctx, fx, "blob_store::sorted_uint_vec::SortedUintVec::get2")
     rc.accessors(ctx, fx, FILES, r'^(get|get2|get_block|set|get_unchecked_checked|at)$', "R-GUARD.refusal")
     ctx.floor("R-GUARD.refusal.accessors", 6)
     rc.unsafe_sinks(ctx, fx, FILES, "R-GUARD")
